@@ -27,6 +27,8 @@ func runConnWrite(id string, toks []string) (res string) {
 		}
 	}()
 	switch toks[0] {
+	case "resp":
+		return runRespond(toks[1:])
 	case "cwsw":
 		return runWriteAcrossSwitch(toks)
 	case "cwrace":
@@ -383,4 +385,43 @@ func runReadWriteRace(toks []string) string {
 		return "incoming " + rbad
 	}
 	return fmt.Sprintf("ok writes=%d", total)
+}
+
+// case: resp B | P:<hex> | F | N:<hex> ...
+// One hap.Connection (no session: what is written is what arrives): B = a request starts being handled
+// (SetResponding(true), what the server's ConnState hook does on StateActive), P = the server writes a part of the response,
+// F = the response is complete (SetResponding(false), StateIdle), N = WriteNotification from the event fan-out.
+// Observed: the writes that reached the socket, in order, and what is still kept back.
+func runRespond(ops []string) string {
+	sc, con, _ := newScripted(nil)
+	var queued [][]byte
+	for _, o := range ops {
+		switch {
+		case o == "B":
+			con.SetResponding(true)
+		case o == "F":
+			con.SetResponding(false)
+			queued = nil
+		case strings.HasPrefix(o, "P:"):
+			con.Write(unhex(o[2:]))
+		case strings.HasPrefix(o, "N:"):
+			before := len(sc.written)
+			con.WriteNotification(unhex(o[2:]))
+			if len(sc.written) == before {
+				queued = append(queued, unhex(o[2:]))
+			}
+		}
+	}
+	var out, pend []string
+	for _, w := range sc.written {
+		kind := "P:"
+		if len(w) > 0 && w[0] == 'N' {
+			kind = "N:"
+		}
+		out = append(out, kind+hx(w))
+	}
+	for _, q := range queued {
+		pend = append(pend, hx(q))
+	}
+	return "out=" + strings.Join(out, ",") + " pending=" + strings.Join(pend, ",")
 }
